@@ -66,6 +66,15 @@ CLAIMED = {
         note="Trusted base: clang-14 lowering + opt-14 mem2reg/simplifycfg, the transfer functions of engine/absint.py, the allocator returning "
              "max_align_t-aligned memory, no unsigned wrap-around of size+header. The proof is about mem.c as compiled for this target (x86-64, "
              "header 24 bytes, max alignment 16); 'returned to the configured allocator' assumes m_set_memhook is called before first use."),
+    "C06": dict(
+        text="Lock discipline of the thread pool decided statically: lock/unlock pairing on every path of every function (failed lock modelled), "
+             "lockset per thread role (worker / submitters / freeing thread / constructor) for the fields declared lock protected, condition "
+             "variable used in a predicate loop with signal/broadcast under the lock, the worker's hand-off shape (dequeue under lock, never when "
+             "WAITCURR or empty, one unlocked call fn(arg), then free; fn/arg stored once from the parameters), join dominating the 'no active "
+             "threads' store and reverse-order teardown. These are the necessary conditions for race/deadlock freedom; schedules are not explored "
+             "(deadlock freedom, lost wake-ups, liveness of free are not decided). Known finding K5 (detached pools are not awaited) is reported.",
+        tech="lockset/typestate dataflow on the CFG with a thread-role table, loop-fragment path enumeration, dominance",
+        ref="DESIGN.md §4 C06, A.9"),
 }
 
 NOT_APPLICABLE = {
